@@ -37,6 +37,10 @@ type c05Case struct {
 	// Launching: instances the ASG has requested but that have not started yet (desired capacity is
 	// ahead of the instance count)
 	Launching int
+	// BusyOut: part of the load runs on the cordoned / force-tainted nodes (it still counts as requests)
+	BusyOut bool
+	// Fleet: the group scales through CreateFleet + AttachInstances (launch template set)
+	Fleet bool
 }
 
 // c05Eval runs the real arithmetic on one case. ok=false means the case is not in the property's
@@ -198,6 +202,10 @@ func c05Mixed(p c05Case) *h.Scenario {
 	g.ASG.Max = 30
 	g.Opts.ScaleUpThresholdPercent = p.T
 	g.Opts.TaintLowerCapacityThresholdPercent, g.Opts.TaintUpperCapacityThresholdPercent = 1, 2
+	if p.Fleet {
+		g.Opts.AWS.LaunchTemplateID, g.Opts.AWS.LaunchTemplateVersion = "lt-1", "1"
+		g.Opts.MaxNodes, g.ASG.Max = 80, 80
+	}
 	return &h.Scenario{
 		Name: "c05.mixed", Groups: []h.GroupSpec{g}, Slots: 1, Quantum: Q,
 		Init: func(hh *h.Hist) {
@@ -215,7 +223,19 @@ func c05Mixed(p c05Case) *h.Scenario {
 			add(p.Tn, sim.NodeOpt{TaintAge: dp(0)})
 			add(p.Fn, sim.NodeOpt{ForceTaint: true})
 			a.Desired += int64(p.Launching)
-			hh.W.AddPod(podOn(g, "", int64(p.T)*10*int64(p.U+p.Need)))
+			total := int64(p.T) * 10 * int64(p.U+p.Need)
+			if p.BusyOut {
+				for _, n := range hh.W.Nodes {
+					_, force := h.HasTaint(n, h.ForceTaintKey)
+					// one node's worth of the threshold each, so that leaving them out changes the node count
+					per := int64(p.T) * 10
+					if (n.Spec.Unschedulable || force) && total > per {
+						hh.W.AddPod(podOn(g, n.Name, per))
+						total -= per
+					}
+				}
+			}
+			hh.W.AddPod(podOn(g, "", total))
 		},
 	}
 }
@@ -402,11 +422,18 @@ func c05Grid(t *testing.T, tier string, shard, shards int, c *h.Collector) {
 							if mixed%shards != shard {
 								continue
 							}
-							for _, launching := range []int{0, 2} {
+							for _, launching := range []int{0, 2, -1} {
 								if launching > 0 && (cn > 0 || fn > 0) {
 									continue
 								}
+								if launching < 0 && cn == 0 && fn == 0 {
+									continue
+								}
 								p := c05Case{T: th, U: u, Tn: tn, Cn: cn, Fn: fn, Need: need, EndToEnd: true, C: 1000, M: 4 << 30, Launching: launching}
+								if launching < 0 {
+									// third variant: part of the load runs on the out-of-service nodes
+									p.Launching, p.BusyOut = 0, true
+								}
 								s := c05Mixed(p)
 								s.Monitors = func() []h.Monitor { return []h.Monitor{NewDecisions()} }
 								hh := gridCase(t, c, s, p)
@@ -416,6 +443,21 @@ func c05Grid(t *testing.T, tier string, shard, shards int, c *h.Collector) {
 							}
 						}
 					}
+				}
+			}
+		}
+	}
+	// fleet mode: the amount has to arrive in the cloud group, not only in the CreateFleet request
+	// (amounts around the attach batch size of 20)
+	if shard == 0 {
+		for _, need := range []int{1, 19, 20, 21, 39, 40, 41, 60} {
+			for _, u := range []int{1, 3} {
+				p := c05Case{T: 70, U: u, Need: need, EndToEnd: true, C: 1000, M: 4 << 30, Fleet: true}
+				s := c05Mixed(p)
+				s.Monitors = func() []h.Monitor { return []h.Monitor{NewDecisions()} }
+				hh := gridCase(t, c, s, p)
+				for _, k := range seenKeys(hh) {
+					c.Nontrivial(fmt.Sprintf("fleet/%d/%d/%s", u, need, k))
 				}
 			}
 		}
